@@ -15,7 +15,7 @@ for pd in seeded/neutral*/C*/patch.diff; do
   T=/tmp/neutall-$tag
   git -C /repo worktree remove --force $T 2>/dev/null; rm -rf $T-out
   git -C /repo worktree add -q --detach $T HEAD || continue
-  if ! git -C $T apply $PWD/$pd 2>/dev/null; then echo "=== $tag PATCH DOES NOT APPLY (tree has moved on)"; git -C /repo worktree remove --force $T; continue; fi
+  if ! git -C $T apply $PWD/$pd 2>/dev/null && ! git -C $T apply -3 $PWD/$pd >/dev/null 2>&1; then echo "=== $tag PATCH DOES NOT APPLY (tree has moved on)"; git -C /repo worktree remove --force $T; continue; fi
   if ! (cd $T && go build -tags verif ./... >/dev/null 2>&1); then echo "=== $tag DOES NOT BUILD"; git -C /repo worktree remove --force $T; continue; fi
   bad=0
   for c in $CHECKS; do
